@@ -43,7 +43,7 @@ def cases(tier, seed):
     B = 24
     for i in range(0, len(hist), B):
         cs.append({'t': 'exhaustive', 'hists': hist[i:i + B], 'primary': 'ed25519_0'})
-    for w in range(24 if tier == 'quick' else 300):
+    for w in range(24 if tier == 'quick' else 2500):
         cs.append({'t': 'walk', 'w': w, 'seed': seed, 'n': 18})
     return cs
 
